@@ -4,13 +4,14 @@ little-endian bytes.
   cd L a => T:encode T:using_encoded T:encode_to T:(x,7u8).encode V:encoded_size V:max_encoded_len T:bits.encode K:decode(le bytes)
             B:all-proper-prefixes-fail K:decode(le++junk):remaining==3
             T:to_le T:to_be T:to_ne V:from_le V:from_be V:from_ne V:from_bits
-            T:json K:from_json T:wrapping_json K:wrapping_from_json
+            T:json K:from_json T:serialize-call-trace T:wrapping-call-trace K:from_json_seq T:wrapping_json K:wrapping_from_json
 """
 from common import Stats, lay, opclass, panic_text, unhex
 
 NAMES = ("encode", "using_encoded", "encode_to", "tuple_embedding", "encoded_size", "max_encoded_len", "bits_encode", "decode", "short_input_fails", "decode_with_trailing",
          "to_le_bytes", "to_be_bytes", "to_ne_bytes", "from_le_bytes", "from_be_bytes", "from_ne_bytes", "from_bits",
-         "serde_json", "serde_from_json", "wrapping_serde_json", "wrapping_serde_from_json")
+         "serde_json", "serde_from_json", "serde_call_trace", "wrapping_serde_call_trace", "serde_from_seq",
+         "wrapping_serde_json", "wrapping_serde_from_json")
 
 
 class Mon(object):
@@ -33,7 +34,7 @@ class Mon(object):
         ah = "%x" % a
         exp = ["T:" + le, "T:" + le, "T:" + le, "T:" + le + "07", "V:%x" % nb, "V:%x" % nb, "T:" + le, "K:" + ah, "B:1", "K:%s:1" % ah,
                "T:" + le, "T:" + be, "T:" + le, "V:" + ah, "V:" + ah, "V:" + ah, "V:" + ah,
-               "T:" + js, "K:" + ah, "T:" + js, "K:" + ah]
+               "T:" + js, "K:" + ah, None, None, "K:" + ah, "T:" + js, "K:" + ah]
         if len(outs) != len(exp):
             # a group collapsed to one panic token shifts positions: report it as such
             for t in outs:
@@ -43,6 +44,16 @@ class Mon(object):
             raise ValueError("token count %d" % len(outs))
         for name, e, t in zip(NAMES, exp, outs):
             st.checks += 1
+            if e is None:
+                # recorded Serializer calls: a one-field struct (declared length 1) whose field `bits` is the integer;
+                # the struct's name is not pinned down by the property
+                import re
+                txt = unhex(t[2:]).decode() if t[0] == "T" else panic_text(t)
+                m = re.match(r"^struct\(\w+,declared_len=1\) field\(bits=int:(-?\d+)\) end$", txt)
+                if t[0] != "T" or not m or int(m.group(1)) != L.val(a):
+                    st.violation("C10:%s:%s:%s" % (name, "panic" if t[0] == "P" else "wrong", L.family()), line,
+                                 "Serialize made the calls %r; expected struct(<name>,declared_len=1) field(bits=int:%d) end" % (txt, L.val(a)))
+                continue
             if t != e:
                 if t[0] == "P":
                     st.violation("C10:%s:panic:%s" % (name, L.family()), line, "panicked: %s" % panic_text(t))
